@@ -51,6 +51,18 @@ def run(ctx):
             for thr in (0, -30):
                 extra.append(dict(entry=rnd.choice(["universal", "cached"]), limit=lim, nlp=nlp, fuzzy=True, thr=thr, ponly=False, pboost=False,
                                   allplat=False, plats=[], nocross=False, boost=False, query="nlpword", corpus="mix"))
+    # one made-up word per entry, one letter dropped: the only commands containing the query in order are known, so the
+    # completeness clause is decided exactly for every platform class; each case follows a search with the flag flipped
+    words = ["blorptak", "cemvudiz", "dwyfnosk", "fyxgrelm", "ghulvamp", "hjenkwis", "jopmzarb", "kravdyxo", "lumqesti",
+             "mwibhonc", "nyzkoplu", "pserdwaf", "quilmbex", "rhaxtovi", "sbegnuly", "tuzwimka", "vogpcyre", "wixjadum"]
+    for w in words:
+        for nocross in (False, True):
+            for plats in ([], ["windows"], ["macos"]):
+                i = rnd.randrange(1, len(w) - 1)
+                extra.append(dict(entry=rnd.choice(["universal", "universal", "cached", "legacyfuzzy"]), limit=rnd.choice([1, 5, 50]),
+                                  nlp=rnd.random() < 0.3, fuzzy=True, thr=0, ponly=False, pboost=False, allplat=False, plats=plats,
+                                  nocross=nocross, boost=False, query="raw", raw=w[:i] + w[i + 1:], corpus="uniq",
+                                  prime=rnd.choice(["nocross", "nocross", "plats", "allplat", "limitbig", "none"])))
     tr, info, ok, rej = engine.run_cases(ctx, scen + extra, ["C07"])
     for x in rej:
         ev = json.loads(x["trace"][x["at"] - 1])
